@@ -267,6 +267,14 @@ theorem C07_build_wf_partial (t : Topo) (h : topoOK t = true) (hp : puOK t = tru
     (hn : numaOK t = true) (hr : restOK (toDump t) = true) : WF (toDump t) :=
   wf_of_rest t (topoOK_OK t h) hp hm hn hr
 
+/-- ... and conversely: under the side conditions, `WF (toDump t)` is EQUIVALENT to the two unproved clauses -/
+theorem C07_build_wf_reduction (t : Topo) (h : topoOK t = true) (hp : puOK t = true) (hm : memOK t = true)
+    (hn : numaOK t = true) : WF (toDump t) ↔ restOK (toDump t) = true :=
+  ⟨restOK_of_wf _, C07_build_wf_partial t h hp hm hn⟩
+
+/-- non-vacuity of the `restOK` hypothesis: it holds on the whole bounded family -/
+example : ∀ t ∈ wfFamily, restOK (toDump t) = true := fun t ht => restOK_of_wf _ (C07_build_wf_bounded t ht)
+
 /-- exactly which clauses remain unproved in general -/
 theorem C07_build_wf_unproved_clauses :
     (topClauses.map (·.1)).filter (fun n => !provedTopClauses.contains n) =
